@@ -36,8 +36,10 @@ VALUES = [None, 0, 7, 1.5, True, "", "text é value", b"", b"\x00\xffbinary\x01"
 STATUSES = ["ready", "evaluation", "error", "evaluating parent"]
 ATTR_VALUES = [True, False, "x", "", "y"]
 XOR_CODE = bytes([0x5A, 0x13, 0xC7, 0x2E, 0x91, 0x7F, 0x08])
-# "scfm/" / "scnm/": StoreCache(MemoryStore(), "/cache") - a cache path with a leading slash is the same cache as without it
-CONFIGS = ["no", "mem", "file", "xor", "fernet", "sql", "sqlstr", "scfm", "scnm", "scff", "scnf", "mem+file", "no+mem", "ifhas", "ifhasnot", "attreq", "proxy", "scfm/", "scnm/"]
+# "scfm/" / "scnm/" / "scfm//" / "scnm//": StoreCache(MemoryStore(), "/cache" or "//cache") - a cache path with leading slashes
+# is the same cache as without them; the model receives the path as given and normalises it like the constructor does
+CONFIGS = ["no", "mem", "file", "xor", "fernet", "sql", "sqlstr", "scfm", "scnm", "scff", "scnf", "mem+file", "no+mem", "ifhas", "ifhasnot", "attreq", "proxy", "scfm/", "scnm/", "scfm//", "scnm//"]
+SLASHED = {"scfm/": "/cache", "scnm/": "/cache", "scfm//": "//cache", "scnm//": "//cache"}
 EXACT_UNSTABLE = {"mem", "file", "xor", "fernet", "sql", "sqlstr", "mem+file", "no+mem", "proxy", "no"}
 
 
@@ -161,8 +163,8 @@ class Built:
             c = C.SQLCache.from_sqlite()
         elif cfg == "sqlstr":
             c = C.SQLStringCache.from_sqlite()
-        elif cfg in ("scfm", "scnm", "scfm/", "scnm/"):
-            c = C.StoreCache(S.MemoryStore(), "/cache" if cfg.endswith("/") else "cache", flat=cfg.startswith("scfm"))
+        elif cfg in ("scfm", "scnm") or cfg in SLASHED:
+            c = C.StoreCache(S.MemoryStore(), SLASHED.get(cfg, "cache"), flat=cfg.startswith("scfm"))
         elif cfg in ("scff", "scnf"):
             c = C.StoreCache(S.FileStore(d()), "cache", flat=(cfg == "scff"))
         elif cfg == "mem+file":
@@ -193,7 +195,8 @@ class Built:
 
 def model_cfg(cfg):
     return {"xor": "xor:" + XOR_CODE.hex(), "ifhas": "ifhas:" + hx("abc"), "ifhasnot": "ifhasnot:" + hx("abc"),
-            "attreq": "attreq:%s:%s" % (hx("abc"), hx("s:x")), "scfm/": "scfm", "scnm/": "scnm"}.get(cfg, cfg)
+            "attreq": "attreq:%s:%s" % (hx("abc"), hx("s:x")),
+            **{c: "%s:%s" % (c[:4], hx(p)) for c, p in SLASHED.items()}}.get(cfg, cfg)
 
 
 def apply_op(cache, op):
